@@ -530,6 +530,14 @@ Proof.
     intros [H|[]]. inversion H; subst. now rewrite E2.
 Qed.
 
+Lemma node_handle2_same self rules p :
+  node_handle2_with full self rules rules p = node_handle self rules p.
+Proof.
+  unfold node_handle2_with, node_handle, node_handle_with, emit_with, passes_with.
+  destruct (handle_with full rules p) as [| |[u|]]; auto.
+  destruct (handle_with full rules (notice_pkt self u)); auto.
+Qed.
+
 Lemma emit_passes self rules u q n : In (q, n) (emit self rules u) -> passes rules q = true.
 Proof.
   unfold emit, emit_with. fold (passes rules (notice_pkt self u)).
